@@ -2,6 +2,7 @@
 EXTENDS Confine, Json, SequencesExt
 MCPkgs == {"p1", "p2", "zz/q"}
 MCFns == {"A", "B", "C", "Z"}
+MCDeclHist == [p \in {"p1"} |-> {"A", "B"}]
 MCDecl == [p \in MCPkgs |-> IF p = "p1" THEN {"A", "B"} ELSE IF p = "p2" THEN {"A"} ELSE {}]
 \* case export: configurations x programs (globals are used by the template form only)
 Cfgs == [importer : SUBSET {"p1", "p2"}, globals : {{}, {"A"}}, allowgo : BOOLEAN]
